@@ -19,6 +19,8 @@ def check(run):
     q = run.quick()
     # ---- 1. design level: every interleaving of the modelled atomic steps ----
     model_check(run, "syncmap", "SyncMap", mc_consts([1, 2], 1, 2), invariants=MC_INV, label="2 goroutines x 1 call, set-up <= 2")
+    model_check(run, "syncmap", "SyncMap", mc_consts([1, 2], 1, 2), properties=["AllCallsReturn"], spec="LiveSpec",
+                label="liveness under fair scheduling: every call returns (no endless retry)")
     if not q:
         model_check(run, "syncmap", "SyncMap", mc_consts([1, 2], 1, 3), invariants=MC_INV, label="2x1, set-up <= 3", timeout=3000)
         model_check(run, "syncmap", "SyncMap", mc_consts([1, 2], 2, 2, maxe=12), invariants=MC_INV, label="2x2, set-up <= 2", timeout=3000)
